@@ -118,3 +118,36 @@ Proof.
     + apply nth_error_None. rewrite upd_length. lia.
   - apply nth_error_upd_other; auto.
 Qed.
+
+(* ---- vocabulary shared by the model (LazySeq.v) and the reference semantics (Spec.v) ---- *)
+Inductive res := Ok (o : obj) | Exn | OutOfFuel | Bad.
+
+
+Inductive rootspec :=
+| RObj (o : obj)                          (* an object as it is (OLazy c refers to a scripted cell) *)
+| RMap (f : fn) (r : rootspec)
+| RFilter (p : pred) (r : rootspec)
+| RTake (n : N) (r : rootspec)
+| RIterate (f : fn) (x : N)
+| RConcat (rs : list rootspec)            (* (concat a b ...) *)
+| RItSeq (it : nat).                      (* (iterator-seq <scripted iterator it>) / seq over a Python iterable *)
+
+Inductive op :=
+| OpFirst (r : nat) | OpRest (r : nat) | OpNext (r : nat) | OpSeq (r : nat)
+| OpCount (r : nat) | OpNth (r : nat) (i : nat) | OpIter (r : nat) (limit : nat).
+
+(** What one operation lets the consumer observe. *)
+Inductive obs :=
+| BVal (v : option N)          (* first / nth: a value or nil *)
+| BKind (k : N)                (* rest / next / seq: 0 None, 1 EMPTY, 2 Cons, 3 LazySeq *)
+| BNum (n : N)                 (* count *)
+| BList (l : list N)           (* iteration *)
+| BExn (k : N)                 (* 1 the producer's exception, 2 IndexError, 3 anything else *)
+| BBad.                        (* the model cannot run this (out of fuel, dangling reference, blocked) *)
+
+Definition kind_of (o : obj) : N :=
+  match o with ONil => 0 | OEmpty => 1 | OCons _ _ => 2 | OLazy _ => 3 end%N.
+
+Definition obs_of_res (r : res) (okf : obj -> obs) : obs :=
+  match r with Ok o => okf o | Exn => BExn 1 | _ => BBad end.
+
